@@ -223,6 +223,21 @@ func c04Scenarios(tier string) []*Scenario {
 		a2.Deps = map[string]string{"w": cCompleted}
 		add([]GNode{eof, d("w"), a2, withDeps(ok("b"), map[string]string{"a": cond})})
 	}
+	// a disabled process started by hand is a victim like any other, with the default and the ordered shutdown
+	for _, ordered := range []bool{false, true} {
+		m := d("m")
+		m.Disabled = true
+		sc := add([]GNode{eof, d("b"), m})
+		sc.Ordered = ordered
+		if ordered {
+			sc.ID += "-ordered"
+		}
+		mUp := func(w *World) bool { return w.launches["m#0"] > 0 }
+		bUp := func(w *World) bool { return w.launches["b#0"] > 0 }
+		sc.API = [][]APICall{{{Op: "start", Name: "m", When: bUp}}}
+		sc.ID += "-start(m)"
+		sc.Procs["a"].Hold = func(w *World, pc int) bool { return !mUp(w) }
+	}
 	// trigger kind x victim kind grid: the code must always be that of the trigger
 	{
 		trig := func(kind string) []GNode {
